@@ -503,11 +503,15 @@ def symplectic_event_driver(chk, direction):
     gc, steps, refs = [], [], []
     saved = (sp._recursive_update_poly, sp._get_tao_omega, sp._eval_hamiltonian_derivative, sp._hermite_refine_event_symplectic)
 
+    exts = []
+
     def upd(q_ext, dt, order, omega, jac_H, clmo_H):
         a = [Sym.lift(v) for v in q_ext] + [Sym.lift(dt)]
         steps.append(dt)
+        before = list(a[:-1])
         for i in range(len(q_ext)):
             q_ext[i] = opaque('U%d' % i, *a)
+        exts.append((before, [Sym.lift(v) for v in q_ext]))
 
     def g(t, y):
         r = opaque('G', Sym.lift(t), *[Sym.lift(v) for v in y])
@@ -523,9 +527,9 @@ def symplectic_event_driver(chk, direction):
     sp._hermite_refine_event_symplectic = ref
 
     def go():
-        del gc[:], steps[:], refs[:]
+        del gc[:], steps[:], refs[:], exts[:]
         r = sp._integrate_symplectic_until_event(y0, np.array(T), None, None, 4, g, direction, xtol, gtol, 20.0)
-        return r, list(gc), list(refs)
+        return r, list(gc), list(refs), list(exts)
     try:
         paths = ex.run(go)
     finally:
@@ -541,13 +545,21 @@ def symplectic_event_driver(chk, direction):
         if p.exc is not None:
             chk.fail(base, 'raised %r' % (p.exc,), None)
             continue
-        (hit, t_hit, y_hit, traj), g_, r_ = p.value
+        (hit, t_hit, y_hit, traj), g_, r_, e_ = p.value
         with explore.activate(ex):
             goals = []
             for k in range(1, len(g_)):
                 last = k == len(g_) - 1
                 goals.append(crossed_spec(g_[k - 1][2], g_[k][2]) if (hit and last) else Not(crossed_spec(g_[k - 1][2], g_[k][2])))
         struct = same(g_[0][0], T[0]) and same(g_[0][1], y0) and all(same(g_[k][0], T[k]) for k in range(len(g_)))
+        # the doubled state [Q, P, X, Y] is initialised once (X = Q, Y = P) and then CARRIED from step to step: the input of step k+1 is the
+        # output of step k (rebuilding it from (Q, P) each step is no longer the extended-phase-space map of C16)
+        if e_:
+            n_ = len(y0) // 2
+            init = list(y0) + list(y0)
+            struct = struct and len(e_[0][0]) == 2 * len(y0) and all(same(u, v) for u, v in zip(e_[0][0], init))
+            for k in range(1, len(e_)):
+                struct = struct and all(same(u, v) for u, v in zip(e_[k][0], e_[k - 1][1]))
         if hit:
             struct = struct and len(r_) == 1 and same(r_[0][0], T[len(g_) - 2]) and same(r_[0][2], T[len(g_) - 1]) and same(r_[0][1], g_[-2][1]) and same(r_[0][3], g_[-1][1])
         else:
